@@ -4,6 +4,7 @@
 //!             [--journal <dir>] [--max-seconds S] [--max-executions N] [--dfs-check-depth D] [--mode pbfs|stateright|dfs]
 //!   hx replay --scenario <file.json> --history <file.json> [--known <file>]   (exit 1 if it violates)
 
+use std::alloc::{GlobalAlloc, Layout, System};
 use std::collections::HashSet;
 use std::path::PathBuf;
 use std::sync::atomic::Ordering;
@@ -12,6 +13,33 @@ use std::sync::Arc;
 use hx::explore::*;
 use hx::sys::*;
 use serde::{Deserialize, Serialize};
+
+/// Poisoning allocator: fresh memory is filled with 0xA5 and freed memory with 0x5A, so that a read of
+/// uninitialised or freed storage gives the same garbage in every run (natively such reads often "work"
+/// because the allocator hands back a chunk that still holds plausible data from the previous execution).
+struct Poison;
+
+unsafe impl GlobalAlloc for Poison {
+    unsafe fn alloc(&self, layout: Layout) -> *mut u8 {
+        let p = System.alloc(layout);
+        if !p.is_null() {
+            std::ptr::write_bytes(p, 0xA5, layout.size());
+        }
+        p
+    }
+    unsafe fn dealloc(&self, ptr: *mut u8, layout: Layout) {
+        std::ptr::write_bytes(ptr, 0x5A, layout.size());
+        System.dealloc(ptr, layout)
+    }
+    unsafe fn alloc_zeroed(&self, layout: Layout) -> *mut u8 {
+        System.alloc_zeroed(layout)
+    }
+    // realloc: the default (alloc + copy + dealloc) keeps the poisoning of the new tail and of the old block
+}
+
+#[cfg(not(feature = "no_poison"))]
+#[global_allocator]
+static GLOBAL: Poison = Poison;
 
 #[derive(Serialize, Deserialize, Default)]
 struct Output {
